@@ -38,7 +38,8 @@ def floors(m, tier):
             "pattern_replacing postcondition evaluations": (m.monitor.get("post:pattern_replacing", 0), BUDGET[tier] // 4),
             "contract evaluated during demo config load": (m.counters.get("evaluated_during_config_load", 0), NSHARDS),
             "configs with key name inside basetype": (m.counters.get("cfg:key_in_basetype", 0), 100),
-            "configs with explicit intermediates": (m.counters.get("cfg:explicit_intermediate", 0), 100)}
+            "configs with explicit intermediates": (m.counters.get("cfg:explicit_intermediate", 0), 100),
+            "configs with two hierarchies in one basetype": (m.counters.get("cfg:two_hierarchies_one_basetype", 0), 100)}
 
 
 def run(snap, tier, seed, t0, replay):
@@ -221,6 +222,15 @@ def gen_config(rng):
             to_ex.append(rng.choice(mine)[0])
         if any(k in b or b in k for k in keys):
             flags.add("key_in_basetype")
+        if rng.random() < 0.2 and L >= 3:
+            # a SECOND hierarchy of the same basetype using the same key names at other depths (regular / library assets ...)
+            k2 = keys[:1] + keys[2:] + keys[1:2] if rng.random() < 0.5 else list(reversed(keys))
+            parts2 = ["{%s:lib}" % k if i == 0 else "{%s}" % k for i, k in enumerate(k2)]
+            leaf2 = b + SEP + "lib" + k2[-1]
+            if leaf2 not in [n for n, _ in templates]:
+                templates.append((leaf2, "/".join(parts2)))
+                to_ex.append(leaf2)
+                flags.add("two_hierarchies_one_basetype")
     if rng.random() < 0.1:
         to_ex.append("no_such__type")
     if rng.random() < 0.15:
